@@ -510,6 +510,10 @@ class Project(MessageHandler):
 
         tasks.sort(key=sort_key)
 
+        # Containers whose children were all scheduled by the milestone pre-pass above are
+        # complete already; tasks depending on them are ready from the first iteration
+        self._updateContainerTaskStatus(scIdx)
+
         failedTasks: list[Any] = []
 
         while tasks:
